@@ -9,7 +9,7 @@ ASSUMPTIONS = [
     "'a response the server sent within its deadline' = arrival tick < caller's timeout",
 ]
 STUBS = ["MiniSched", "VClock/fake_fail_after", "format stub"]
-OUTSIDE = ["more than 3 callers symbolically (4 only in the stub-vs-real differential)", "real OS-thread concurrency", "gaps above 120 ticks"]
+OUTSIDE = ["integer ids are mathematical integers to the engine: a comparison through float() is exact there, so double-rounding is covered only by the listed near-equal pairs", "more than 3 callers symbolically (4 only in the stub-vs-real differential)", "real OS-thread concurrency", "gaps above 120 ticks"]
 FINDING = "C18-lost-response"
 
 
@@ -42,6 +42,14 @@ def obligations(tier, ctx):
             pre = [("1 <= len(id0) <= 2" if t0 == "str" else "id0 != 0"), ("1 <= len(id1) <= 2" if t1 == "str" else "id1 != 0")]
             obs.append(Ob(name=f"ids_{''.join(map(str, order))}_n{npos if npos >= 0 else 'x'}_{t0}{t1}", params=[("id0", t0), ("id1", t1)], pre=pre,
                           call=f"H.crosstalk_ids({order!r}, {npos}, id0, id1)", backend="F", timeout=240, family="no-cross-talk / ids equal as text, different JSON type"))
+    # two integer ids (symbolic, unbounded) and a corpus of near-equal id pairs (doubles, 64-bit wrap, long strings, Unicode forms)
+    for order, npos in [((1, 0), -1), ((0, 1), 0)]:
+        tag = f"{''.join(map(str, order))}_n{npos if npos >= 0 else 'x'}"
+        obs.append(Ob(name=f"ids_{tag}_intint", params=[("id0", "int"), ("id1", "int")], pre=["id0 != 0", "id1 != 0", "id0 != id1"],
+                      call=f"H.crosstalk_ids({order!r}, {npos}, id0, id1)", backend="F", timeout=240, family="no-cross-talk / two integer ids"))
+        for be in ("F", "P"):
+            obs.append(Ob(name=f"ids_{tag}_near_{be}", params=[("i", "int"), ("swap", "bool")], pre=["0 <= i <= 11"],
+                          call=f"H.crosstalk_near({order!r}, {npos}, i, swap)", backend=be, timeout=240, family="no-cross-talk / near-equal id pairs (corpus)"))
     # the known finding is re-demonstrated on the smallest instance; if the tree is repaired this confirms and no line is printed
     for order, npos in [((1, 0), -1)] + ([((0, 1), 0)] if tier != "quick" else []):
         m = len(order) + (1 if npos >= 0 else 0)
